@@ -183,23 +183,28 @@ impl Game {
             return self.select_alpha_beta_best_move();
         }
 
-        let rng = rand::thread_rng().gen_range(0..candidate_book_moves.len());
-        let (book_move, _line_name) = &candidate_book_moves[rng];
-        let from_square = book_move.from_square();
-        let to_square = book_move.to_square();
-
         let candidates = self
             .move_generator
             .generate_moves_and_lazily_update_chess_move_effects(&mut self.board, current_turn);
 
-        let maybe_chess_move = candidates
+        // The book only knows games that began from the standard starting position:
+        // keep the suggestions that are legal here, and search if none of them is.
+        let playable_book_moves: Vec<&ChessMove> = candidates
             .iter()
-            .find(|m| m.from_square() == from_square && m.to_square() == to_square);
+            .filter(|m| {
+                candidate_book_moves.iter().any(|(book_move, _line_name)| {
+                    book_move.from_square() == m.from_square()
+                        && book_move.to_square() == m.to_square()
+                })
+            })
+            .collect();
 
-        match maybe_chess_move {
-            Some(result) => Ok(result.clone()),
-            None => return Err(GameError::InvalidMove),
+        if playable_book_moves.is_empty() {
+            return self.select_alpha_beta_best_move();
         }
+
+        let rng = rand::thread_rng().gen_range(0..playable_book_moves.len());
+        Ok(playable_book_moves[rng].clone())
     }
 
     pub fn make_waterfall_book_then_alpha_beta_move(&mut self) -> Result<ChessMove, GameError> {
